@@ -33,8 +33,9 @@ def _preprocess_data(data, rml_rule, references, config):
         if config.get_db_url(rml_rule['source_name']).lower().startswith(ORACLE.lower()):
             data = normalize_oracle_identifier_casing(data, references)
 
-    # TODO: can this be removed?
-    data = data.map(str)
+    # cast the values to str; NULLs (None, NaN, NaT, <NA>) stay NULLs so that they are removed together with the
+    # NULL values below instead of being rendered as the strings 'None', 'nan', 'NaT' or '<NA>'
+    data = data.map(lambda value: None if pd.api.types.is_scalar(value) and pd.isna(value) else str(value))
 
     data = remove_null_values_from_dataframe(data, config, references)
     data = data.convert_dtypes(convert_boolean=False)
